@@ -46,7 +46,7 @@ def gen_specs(which):
     _, letters, kx = which.split(":")
     x = {"i": XI, "f": XF, "O": XS}[kx]
     pool = {
-        "a": D.spec(["x", "y"], [x, YL], [kx, "O"], vk="f", base=2, attrs={"long": "v"}),
+        "a": D.spec(["x", "y"], [x, YL], [kx, "O"], vk="f", base=2, attrs={"long": "v"}, axattrs={"x": {"units": "m"}, "y": {"kind": "s"}}),
         "b": D.spec(["x"], [x], [kx], vk="i", base=3),
         "c": D.spec([], [], [], vk="f", base=4),
         "d": D.spec(["y", "x"], [YL, x], ["O", kx], vk="f", base=5),
@@ -230,6 +230,12 @@ def same_da(got, exp, what, rtol=1e-12):
                 return "{}: labels of {} are {} but the DimArray operation gives {}".format(what, ga.name, py(ga.values), py(ea.values))
         if not common.same_values(got.values, exp.values, rtol):
             return "{}: values {} but the DimArray operation gives {}".format(what, py(got.values), py(exp.values))
+        # "exactly the result of the corresponding DimArray operation": the variable's and its axes' metadata as well
+        if common.freeze(dict(got.attrs)) != common.freeze(dict(exp.attrs)):
+            return "{}: variable metadata {} but the DimArray operation gives {}".format(what, dict(got.attrs), dict(exp.attrs))
+        for ga, ea in zip(got.axes, exp.axes):
+            if common.freeze(dict(ga.attrs)) != common.freeze(dict(ea.attrs)):
+                return "{}: metadata of axis {} is {} but the DimArray operation gives {}".format(what, ga.name, dict(ga.attrs), dict(ea.attrs))
         return None
     ev = exp.values[()] if isinstance(exp, DimArray) else exp
     gv = got.values[()] if isinstance(got, DimArray) and got.ndim == 0 else got
